@@ -19,6 +19,9 @@ Has(e, f) == f \in DOMAIN e
 \* record appended to `bad` for a failing event
 BadRec(l, e, cs) == [line |-> l, scn |-> e.scn, i |-> e.i, op |-> e.op, clauses |-> cs]
 
+\* the same with judge-computed details (used by known-finding signatures as e['_info'])
+BadRecI(l, e, cs, info) == [line |-> l, scn |-> e.scn, i |-> e.i, op |-> e.op, clauses |-> cs, info |-> info]
+
 \* printed exactly once, in the state that has consumed the whole trace
 ReportBad(l, bad, notes) ==
   l = NEvents + 1 => /\ PrintT(<<"BAD", ToJson(bad)>>)
